@@ -146,6 +146,10 @@ func Implies(a, b bool) bool { return !a || b }
 
 func Reach(label string) { Reached[label] = true }
 
+// Switch turns a named group of engine-side function replacements on/off ("evmstub": (*vm.EVM).Call/Create/... are
+// replaced by model.EVMCall/...). No effect natively.
+func Switch(key string, on bool) {}
+
 // ReachIf records label as reached when cond can hold on the current path (vacuity guard; never forks).
 func ReachIf(label string, cond bool) {
 	if cond {
@@ -232,3 +236,8 @@ func DecodeInterface(bz []byte, ptr any) bool {
 	}
 	return NativeDecodeInterface(bz, ptr)
 }
+
+// EncodeAny / DecodeAny: the opaque inverse-pair encoding for non-protobuf values (RLP-encoded receipts and
+// transactions). Engine only: natively the real encoders run, so these are never called.
+func EncodeAny(x any) []byte        { panic("verif.EncodeAny: engine only") }
+func DecodeAny(bz []byte, ptr any) bool { panic("verif.DecodeAny: engine only") }
